@@ -21,6 +21,7 @@ import (
 
 // machine description used by several commands: either a BASM source or explicit processors
 type bmSpec struct {
+	JSON       string     `json:"json,omitempty"` // a machine file as a front-end wrote it
 	Basm       string     `json:"basm,omitempty"`
 	NoDynMatch bool       `json:"nodyn,omitempty"`
 	Rsize      int        `json:"rsize,omitempty"`
@@ -49,6 +50,13 @@ func buildBM(s *bmSpec) (bm *bondmachine.Bondmachine, err error) {
 			err = fmt.Errorf("panic: %v", r)
 		}
 	}()
+	if s.JSON != "" {
+		bmj := new(bondmachine.Bondmachine_json)
+		if err = json.Unmarshal([]byte(s.JSON), bmj); err != nil {
+			return nil, err
+		}
+		return bmj.Dejsoner(), nil
+	}
 	if s.Basm != "" {
 		quiet(func() {
 			bi := new(basm.BasmInstance)
